@@ -26,7 +26,7 @@ import (
 )
 
 func checkC03(c *Ctx) {
-	c.explainf("C03 decides structural necessary conditions of lexical scoping on the resolved program: (SNAP) CreateClosure pushes a Copy of the compiled function on which SetClosing installed the result of NewClosing, never the shared template; NewClosing clones the live scope stack (sharing the scope objects), scans it from the top, stops at the first function scope and keeps exactly the scopes from there to the top; (LIVE) every look-up on the live scope stack made by LexicalLookupSymbol is LookupSymbolUntilFunction with the constant bound 1, the live stack is consulted first and its hit is returned, whole-stack look-ups on the live stack are confined to listed host functions; LookupSymbolUntilFunction scans from the top, tests the scope's own bindings before the function-boundary test, counts only function scopes and leaves the loop when the count reaches the bound; (FRESH) AddScope and AddFuncScope push a scope allocated in that very execution, AddFuncScope marks it as a function boundary, and every emission sequence of let / letseq / newScope / for / package / compiled functions opens its scope before any sub-form is compiled; parameters are bound right after the function scope is opened; (BIND) def writes only the top scope, set writes through the scope in which the look-up found the name and falls back to def only when the look-up failed; (KEEP) popping a scope does not touch the scope's bindings. It does not decide the outcome of any particular program's look-ups.")
+	c.explainf("C03 decides structural necessary conditions of lexical scoping on the resolved program: (SNAP) CreateClosure pushes a Copy of the compiled function on which SetClosing installed the result of NewClosing, never the shared template; NewClosing clones the live scope stack (sharing the scope objects), scans it from the top, stops at the first function scope and keeps exactly the scopes from there to the top; (LIVE) every look-up on the live scope stack made by LexicalLookupSymbol is LookupSymbolUntilFunction with the constant bound 1, the live stack is consulted first and its hit is returned, whole-stack look-ups on the live stack are confined to listed host functions; LookupSymbolUntilFunction scans from the top, tests the scope's own bindings before the function-boundary test, counts only function scopes and leaves the loop when the count reaches the bound; (FRESH) AddScope and AddFuncScope push a scope allocated in that very execution, AddFuncScope marks it as a function boundary, and every emission sequence of let / letseq / newScope / for / package / compiled functions opens its scope before any sub-form is compiled; parameters are bound right after the function scope is opened; (BIND) def writes only the top scope, set writes through the scope in which the look-up found the name and falls back to def only when the look-up failed; (KEEP) popping a scope does not touch the scope's bindings. The captured scopes searched for a symbol are those of the compiled function found under a running Go builtin (C03-LEXFN); the order of scope opening and right-hand sides in let is reported (C03-LETSCOPE). It does not decide the outcome of any particular program's look-ups.")
 	c03Snap(c)
 	c03Live(c)
 	c03Fresh(c)
